@@ -6,6 +6,7 @@ import (
 	"fmt"
 	"strconv"
 	"strings"
+	"sync"
 	"sync/atomic"
 	"time"
 
@@ -106,6 +107,47 @@ func c10ErrClass(err error) string {
 
 var c10seq int64
 
+// a context whose deadline passes when the harness says so (and which ends with its parent)
+type deadlineCtx struct {
+	context.Context
+	once    sync.Once
+	expired chan struct{}
+	done    chan struct{}
+	mu      sync.Mutex
+	err     error
+}
+
+func newDeadlineCtx(parent context.Context) *deadlineCtx {
+	c := &deadlineCtx{Context: parent, expired: make(chan struct{}), done: make(chan struct{})}
+	go func() {
+		select {
+		case <-parent.Done():
+			c.mu.Lock()
+			c.err = parent.Err()
+			c.mu.Unlock()
+		case <-c.expired:
+			c.mu.Lock()
+			c.err = context.DeadlineExceeded
+			c.mu.Unlock()
+		}
+		close(c.done)
+	}()
+	return c
+}
+func (c *deadlineCtx) expire()               { c.once.Do(func() { close(c.expired) }) }
+func (c *deadlineCtx) Done() <-chan struct{} { return c.done }
+func (c *deadlineCtx) Err() error {
+	select {
+	case <-c.done:
+		c.mu.Lock()
+		defer c.mu.Unlock()
+		return c.err
+	default:
+		return nil
+	}
+}
+func (c *deadlineCtx) Deadline() (time.Time, bool) { return time.Now().Add(time.Hour), true }
+
 func c10Run(cs c10case, raw bool) (obs string, fails []string) {
 	uid := atomic.AddInt64(&c10seq, 1)
 	log := &attemptLog{}
@@ -121,10 +163,12 @@ func c10Run(cs c10case, raw bool) (obs string, fails []string) {
 			}
 		}
 	}
+	var dl *deadlineCtx
 	if hasDL {
-		var c2 context.CancelFunc
-		ctx, c2 = context.WithTimeout(ctx, 60*time.Millisecond)
-		defer c2()
+		// the deadline "passes" when the request scripted dl has arrived at its server, not after some milliseconds:
+		// a timer could fire before the request is even sent on a loaded machine
+		dl = newDeadlineCtx(ctx)
+		ctx = dl
 	}
 	defer cancel()
 	for i := range cs.dials {
@@ -134,6 +178,9 @@ func c10Run(cs c10case, raw bool) (obs string, fails []string) {
 			d = append(d, ch == '1')
 		}
 		fs := &fakeServer{id: i, dials: d, calls: append([]string{}, cs.calls[i]...), log: log, onCtx: func() { cancel() }}
+		if dl != nil {
+			fs.onDL = dl.expire
+		}
 		registerFake(addr, fs)
 		addrs = append(addrs, addr)
 		keys = append(keys, "vsrv@"+addr)
